@@ -75,7 +75,7 @@ def harness_src(name, length, seqs, unwind):
     s = "    #[cfg_attr(kani, kani::proof)]\n    #[cfg_attr(kani, kani::unwind(%d))]\n    pub fn %s() {\n        let src: [u8; %d] = nd();\n" % (unwind, name, length)
     for (phase, ops) in seqs:
         s += seq_src(phase, ops, length)
-    s += "        vs::done();\n    }\n"
+    s += "        crate::vcover!(true, \"all sequences of the harness ran to their end\");\n        vs::done();\n    }\n"
     return s
 
 
